@@ -5,6 +5,7 @@ package main
 
 import (
 	"fmt"
+	"github.com/goghcrow/yae/val"
 	"strings"
 
 	"github.com/goghcrow/yae/parser/oper"
@@ -108,8 +109,10 @@ func runC01(r *Run) {
 	for i := 0; i < n/3; i++ {
 		g := &progGen{r: r, vars: vars, fns: stdFns, useFns: r.Rng.Intn(2) == 0}
 		var src string
-		if i%2 == 0 {
+		if i%3 == 0 {
 			src = g.sharedVarProg(r.Rng.Intn(4) != 0)
+		} else if i%3 == 1 {
+			src = g.permObjProg(r.Rng.Intn(4) != 0)
 		} else {
 			g.poison = 1
 			src = g.Gen(g.randType(2), 1+r.Rng.Intn(3))
@@ -335,6 +338,41 @@ func runC06(r *Run) {
 			r.Violate("strict-operand-count", fmt.Sprintf("%q", src), fmt.Sprintf("%d tracing calls, expected %d", len(got), len(want)))
 		}
 		r.Nontrivial(src)
+	}
+	// operand ORDER in every operand position: tr(k) calls numbered in source order must be traced as 1, 2, 3, ...
+	for _, c := range []struct {
+		src  string
+		want int
+	}{
+		{"[tr(1), tr(2)][tr(3) - 3]", 3}, {"ident([tr(1)])[tr(2) - 2]", 2}, {"[[tr(1)]][tr(2) - 2][tr(3) - 3]", 3}, {"[\"k\": tr(1)][if(tr(2) > 0, \"k\", \"j\")]", 2},
+		{"tr(1) - tr(2) * tr(3)", 3}, {"tr(1) / tr(2) + tr(3) % tr(4)", 4}, {"tr(1) ^ tr(2)", 2}, {"max(tr(1), min(tr(2), tr(3)))", 3}, {"{a: tr(1), b: tr(2)}.b + tr(3)", 3},
+		{"get([tr(1)], tr(2) - 2, tr(3))", 3}, {"get([\"k\": tr(1)], if(tr(2) > 0, \"k\", \"j\"), tr(3))", 3}, {"tr(1) == tr(2)", 2}, {"tr(1) < tr(2)", 2}, {"tr(1) >= tr(2)", 2}, {"tr(1) != tr(2)", 2},
+		{"string(tr(1)) + string(tr(2))", 2}, {"if(tr(1) > 0, tr(2), tr(99))", 2}, {"tr(1) > 0 && tr(2) > 0", 2}, {"tr(1) < 0 || tr(2) > 0", 2}, {"inc(tr(1)) + inc(tr(2))", 2},
+		{"pick([tr(1)], tr(2))", 2}, {"union([tr(1)], [tr(2), tr(3)])", 3}, {"len([tr(1), tr(2)]) + abs(tr(3))", 3}, {"[tr(1): tr(2), tr(3): tr(4)]", 4}, {"isset([tr(1): 0], tr(2))", 2},
+		{"-tr(1) + -tr(2)", 2}, {"(tr(1) > 0 ? tr(2) : tr(99)) + tr(3)", 3}, {"[tr(1), tr(2)][tr(3) - 3] + [tr(4)][tr(5) - 5]", 5}, {"lazyif(tr(1) > 0, tr(2), tr(99)) + tr(3)", 3},
+		{"lazyif(b, lazyif(b, tr(1), tr(99)), tr(98)) + tr(2)", 2}, {"[lazyif(b, lazyif(b, tr(1), tr(99)), tr(98)), tr(2)]", 2}, {"lazyif(b, lazyif(f, tr(99), tr(1)) * 2, tr(98)) - tr(2)", 2},
+		{"both(both(trb(b), trb(b)), trb(b)) || tr(1) > 0", 0}, {"if(both(b, both(b, b)), tr(1), tr(99)) + tr(2)", 2},
+	} {
+		o := judgeTrace(r, evalCase{c.src, true}, vars)
+		if o == nil {
+			r.Violate("operand-order-program-rejected", fmt.Sprintf("%q", c.src), "a well-typed program of the operand-order family was rejected")
+			continue
+		}
+		var got []string
+		for _, e := range o.trace {
+			s := string(e)
+			if strings.HasPrefix(s, "("+string(Name("tr"))+" ") {
+				got = append(got, s)
+			}
+		}
+		var want []string
+		for j := 1; j <= c.want; j++ {
+			want = append(want, string(L(Name("tr"), ValSx(val.Num(float64(j))))))
+		}
+		if c.want > 0 && strings.Join(got, " ") != strings.Join(want, " ") {
+			r.Violate("operand-order", fmt.Sprintf("%q", c.src), fmt.Sprintf("tracing calls ran as %v, source order is %v", got, want))
+		}
+		r.Count("operand-order programs")
 	}
 }
 
